@@ -244,7 +244,23 @@ type Stats struct {
 	kfWitness   map[string][]byte // sig -> smallest diverted case (replay file content)
 }
 
+// curStats is the statistics object of the running test (one property per process invocation).
+var curStats *Stats
+
+// skipCase records that a check function declined to judge a case (outside the stated domain).
+func skipCase(reason string) {
+	if curStats != nil {
+		curStats.label("skipped:" + reason)
+	}
+}
+
 func newStats(id string) *Stats {
+	st := newStats0(id)
+	curStats = st
+	return st
+}
+
+func newStats0(id string) *Stats {
 	return &Stats{ID: id, Nontrivial: map[uint64]struct{}{}, Labels: map[string]int64{}, KFHits: map[string]int64{},
 		KFMatched: map[string]int64{}, Parts: map[string]int64{}, Exhaustive: map[string]bool{}, kfWitness: map[string][]byte{}}
 }
